@@ -26,6 +26,8 @@ def spec_sort_list(ty):
         return [I]
     if k == "float":
         return [R]
+    if k == "xfloat":
+        return [R, B]
     if k == "bool":
         return [B]
     if k == "arr":
@@ -73,8 +75,11 @@ class Engine:
             dom = []
             for _, ty in sd.params:
                 dom.extend(spec_sort_list(ty))
-            rng = {"int": I, "float": R, "bool": B}[sd.ret[0]]
-            self.uf_cache[sd.name] = z3.Function(sd.name, *(dom + [rng]))
+            if sd.ret[0] == "xfloat":
+                self.uf_cache[sd.name] = (z3.Function(sd.name, *(dom + [R])), z3.Function(sd.name + "_ninf", *(dom + [B])))
+            else:
+                rng = {"int": I, "float": R, "bool": B}[sd.ret[0]]
+                self.uf_cache[sd.name] = z3.Function(sd.name, *(dom + [rng]))
         return self.uf_cache[sd.name]
 
     def flatten_arg(self, fv, st, v, ty):
@@ -83,6 +88,9 @@ class Engine:
             return [fv.as_int(v).e]
         if k == "float":
             return [fv.to_float(v).v]
+        if k == "xfloat":
+            f_ = fv.to_float(v)
+            return [f_.v, f_.ninf]
         if k == "bool":
             return [fv.to_bool(v)]
         if k == "arr":
@@ -112,12 +120,16 @@ class Engine:
         return SBool(term)
 
     def spec_app(self, fv, st, sd, argvals):
+        if getattr(sd, "inline", False):
+            return self.spec_body_value(fv, st, sd, argvals)
         f = self.spec_uf(sd)
         if len(argvals) != len(sd.params):
             raise VerifError("spec %s arity" % sd.name)
         flat = []
         for v, (_, ty) in zip(argvals, sd.params):
             flat.extend(self.flatten_arg(fv, st, v, ty))
+        if sd.ret[0] == "xfloat":
+            return SFloat(f[0](*flat), f[1](*flat))
         return self.wrap_ret(sd.ret, f(*flat))
 
     def spec_param_value(self, fv, st, v, ty):
@@ -127,6 +139,9 @@ class Engine:
             return fv.as_int(v)
         if k == "float":
             return SFloat(fv.to_float(v).v)
+        if k == "xfloat":
+            f_ = fv.to_float(v)
+            return SFloat(f_.v, f_.ninf)
         if k == "bool":
             return SBool(fv.to_bool(v))
         if k == "arr":
@@ -465,6 +480,16 @@ class Engine:
         for pn, ty in cd.params:
             if ty[0] == "opt":
                 pass
+        if cd.defs:
+            fv.ghost_mode += 1
+            try:
+                for dstmt in cd.defs:
+                    if not isinstance(dstmt, ast.Assign):
+                        raise VerifError("defs() may contain assignments only")
+                    fv.st_Assign(dstmt, cs)
+            finally:
+                fv.ghost_mode -= 1
+            pre.env.update({k: v for k, v in cs.env.items() if k not in pre.env})
         for i, r in enumerate(cd.requires):
             g = fv.to_bool(fv.ev(r, cs, False))
             fv.oblige("pre@" + short, "site%d/requires%d" % (site, i), g, st, node)
